@@ -73,8 +73,14 @@ func runUpstreamFamily(s *Sim, prop string) {
 	dupAcks := t.Bool("dup-acks", 1, 4)
 	fastNet := Pick(t, "net", 4, 1, 12) // weight of the "pump" action
 	cancelWrites := t.Bool("cancel-writes", 1, 6)
+	// several operations issued back to back, so that writers, flusher and the flush loop are
+	// runnable at the same time and are interleaved by the seeded yield points only
+	burst := Pick(t, "burst", 0, 0, 0, 2, 4)
+	raceClose := t.Bool("race-close", 1, 3)
+	reuseScratch := t.Bool("reuse-scratch", 1, 3)
+	closer := nTasks
 
-	s.NewTasks(nTasks)
+	s.NewTasks(nTasks + 1)
 	// connect
 	s.Start(0, y.connectOp())
 	s.Wait()
@@ -92,6 +98,10 @@ func runUpstreamFamily(s *Sim, prop string) {
 			return
 		}
 	}
+	for _, h := range y.Ups {
+		h.ReuseScratch = reuseScratch
+	}
+	s.BurstMax = burst
 
 	// main loop
 	for step := 0; step < maxSteps; step++ {
@@ -115,6 +125,9 @@ func runUpstreamFamily(s *Sim, prop string) {
 				op := y.writeOp(h, ti, id, sizes)
 				if cancelWrites && t.Bool("w-cancelable", 1, 4) {
 					op.CtxKind = "cancel"
+					if t.Bool("w-cancel-at-yield", 1, 3) {
+						op.CancelAtYield = 1 + t.Choose("w-yield-k", 40)
+					}
 				}
 				s.Start(ti, op)
 			}})
@@ -126,6 +139,10 @@ func runUpstreamFamily(s *Sim, prop string) {
 				if t.Bool("f-cancelable", 1, 6) {
 					op.CtxKind = "deadline"
 					op.Timeout = Pick(t, "f-to", time.Millisecond, 50*time.Millisecond)
+				} else if t.Bool("f-cancel-at-yield", 1, 5) {
+					// the caller gives up at an arbitrary instant inside the call
+					op.CtxKind = "cancel"
+					op.CancelAtYield = 1 + t.Choose("f-yield-k", 60)
 				}
 				s.Start(flusher, op)
 			}})
@@ -155,6 +172,8 @@ func runUpstreamFamily(s *Sim, prop string) {
 		s.Step(acts)
 	}
 
+	s.BurstMax, s.burstLeft = 0, 0
+	s.Do("sync", func() {})
 	// settle: let every write and flush return
 	for _, tk := range s.tasks {
 		if op := tk.busy; op != nil && op.CtxKind == "cancel" && t.Bool("settle-cancel", 1, 2) {
@@ -213,7 +232,36 @@ func runUpstreamFamily(s *Sim, prop string) {
 	// close streams while the network keeps making random progress
 	for _, h := range y.Ups {
 		h := h
-		op := s.Start(0, y.closeUpOp(h))
+		var op *Op
+		if raceClose {
+			// writers (and the flusher) call into the stream at the same time as Close: whatever a
+			// write returns, a nil result is a promise that the point is delivered and counted
+			s.Stat("env.writes-racing-close")
+			closeFirst := t.Bool("rc-close-first", 1, 3)
+			if closeFirst {
+				op = s.Start(closer, y.closeUpOp(h))
+			}
+			for ti := 0; ti < nTasks; ti++ {
+				if !s.Idle(ti) || !t.Bool("rc-task", 2, 3) {
+					continue
+				}
+				if withFlusher && ti == flusher {
+					s.Start(ti, y.flushOp(h))
+					continue
+				}
+				n := Pick(t, "rc-n", 1, 1, 2, 5)
+				sizes := make([]int, n)
+				for i := range sizes {
+					sizes[i] = payloadSizes[t.Choose("w-size", len(payloadSizes))]
+				}
+				s.Start(ti, y.writeOp(h, ti, dataID(t.Choose("w-id", nIDs)), sizes))
+			}
+			if !closeFirst {
+				op = s.Start(closer, y.closeUpOp(h))
+			}
+		} else {
+			op = s.Start(0, y.closeUpOp(h))
+		}
 		s.Wait()
 		for i := 0; i < 60 && !op.harvested; i++ {
 			var acts []Action
